@@ -5312,7 +5312,10 @@ impl GraphEngine {
                 } else if (new_cost - current_dist).abs() < EPSILON {
                     // Equal cost - add parent
                     if let Some(p) = parents.get_mut(&neighbor) {
-                        if p.len() < config.max_parents_per_node {
+                        // An undirected edge is seen in both loops: record it once
+                        if p.len() < config.max_parents_per_node
+                            && !p.contains(&(node_id, edge_id))
+                        {
                             p.push((node_id, edge_id));
                         }
                     }
@@ -5350,7 +5353,10 @@ impl GraphEngine {
                     }
                 } else if (new_cost - current_dist).abs() < EPSILON {
                     if let Some(p) = parents.get_mut(&neighbor) {
-                        if p.len() < config.max_parents_per_node {
+                        // An undirected edge is seen in both loops: record it once
+                        if p.len() < config.max_parents_per_node
+                            && !p.contains(&(node_id, edge_id))
+                        {
                             p.push((node_id, edge_id));
                         }
                     }
@@ -5397,6 +5403,11 @@ impl GraphEngine {
                 });
             } else if let Some(parent_list) = parents.get(&current) {
                 for (parent, edge_id) in parent_list {
+                    // Zero-weight cycles make equal-cost parents circular: only
+                    // simple paths are enumerated, so the walk always ends
+                    if nodes.contains(parent) {
+                        continue;
+                    }
                     let mut new_nodes = nodes.clone();
                     new_nodes.push(*parent);
                     let mut new_edges = edges.clone();
